@@ -80,9 +80,24 @@ class Check(PropCheck):
                 if rng.random() < 0.5:
                     t1, t2 = t2, t1
                 kind = 'pair'
+            if r < 0.75 and r >= 0.6:
+                # same topology, lengths one ulp apart or on a tiny scale
+                import math
+                t2 = t1.copy()
+                tiny = rng.random() < 0.4
+                for n1, n2 in zip(t1.nodes()[1:], t2.nodes()[1:]):
+                    if n1.length is None:
+                        continue
+                    if tiny:
+                        n1.length = n1.length * 1e-17; n2.length = n1.length * rng.choice([1.0, 3.0, 0.0])
+                    elif rng.random() < 0.5:
+                        n2.length = math.nextafter(n1.length, math.inf)
+                mode = 'mod'; kind = 'pair'
             if rng.random() < 0.3 and kind != 'reorder':
                 t2 = redraw_root(t2); gen.assign_lengths(t2, rng, mode)
-            meta = {'kind': kind, 'tol': None if mode == 'exact' else 1e-9}
+            lens_all = [abs(x.length) for x in t1.nodes() + t2.nodes() if x.length is not None]
+            # inexact stream: errors are relative to the magnitude of the lengths involved (differences of nearly equal sums cancel)
+            meta = {'kind': kind, 'tol': None if mode == 'exact' else 1e-9, 'abs_scale': (max(lens_all) * len(lens_all) * 16 if lens_all else 1.0)}
             if rng.random() < 0.12 and kind == 'pair':
                 # drop one internal length -> refusal
                 inner = [x for x in t1.nodes()[1:] if x.children]
@@ -154,7 +169,7 @@ class Check(PropCheck):
             x = vf.fl(l[1])
             e = math.sqrt(float(expected)) if sqrt else float(expected)
             if sqrt or tol:
-                okv = abs(x - e) <= 1e-9 * max(abs(e), 1e-300, float(wrf))
+                okv = abs(x - e) <= 1e-9 * max(abs(e), 1e-300, float(wrf), (case.meta.get('abs_scale', 0.0) if tol else 0.0))
             else:
                 okv = Fraction(x) == expected
             if not okv:
@@ -175,16 +190,16 @@ class Check(PropCheck):
             ct = vals.get(key)
             if ct and ct[1][0] == 'ok':
                 x = vf.fl(ct[1][3])
-                if (Fraction(x) != wrf) if not tol else abs(x - float(wrf)) > 1e-9 * max(float(wrf), 1e-300):
+                if (Fraction(x) != wrf) if not tol else abs(x - float(wrf)) > 1e-9 * max(float(wrf), 1e-300, case.meta.get('abs_scale', 0.0)):
                     bad.append((ct[0], 'combined report weighted RF %r differs from the definition %r' % (x, float(wrf))))
                 y = vf.fl(ct[1][4])
-                if abs(y - math.sqrt(float(kf2))) > 1e-9 * max(math.sqrt(float(kf2)), 1e-300, float(wrf)):
+                if abs(y - math.sqrt(float(kf2))) > 1e-9 * max(math.sqrt(float(kf2)), 1e-300, float(wrf), (case.meta.get('abs_scale', 0.0) if tol else 0.0)):
                     bad.append((ct[0], 'combined report branch score %r differs from the definition %r' % (y, math.sqrt(float(kf2)))))
         if f is not None:
             ct = vals.get(('cmp_topo 1', 0, True))
             if ct and ct[1][0] == 'ok':
                 x = vf.fl(ct[1][3]); e = float(wrf * Fraction(abs(f)))
-                if abs(x - e) > 1e-9 * max(e, 1e-300):
+                if abs(x - e) > 1e-9 * max(e, 1e-300, case.meta.get('abs_scale', 0.0) * abs(f)):
                     bad.append((ct[0], 'combined report after rescaling: weighted RF %r, expected %r' % (x, e)))
         cb = vals.get(('cmp_branch 1 0', 0, False))
         if cb and cb[1][0] == 'ok' and not tol:
